@@ -627,6 +627,17 @@ def run_hdf5(cfg):
     return dict(obligations=ob, discharged=dis, violations=viol, samples=[{'config': 'hdf5', 'trees': len(trees)}], twin=dis > 0)
 
 
+class _DTName(str):
+    """canonical dtype name that also answers the questions code may ask a numpy.dtype (kind, itemsize, type, name)"""
+
+    def __new__(cls, real):
+        o = str.__new__(cls, real.name)
+        o.kind, o.itemsize, o.name, o.char, o.str = real.kind, real.itemsize, real.name, real.char, real.str
+        o.type = real.name          # the scalar type spelling: the canonical name again
+        o.byteorder = real.byteorder
+        return o
+
+
 def run_soundfile(cfg):
     viol = []
     ob = dis = 0
@@ -654,7 +665,7 @@ def run_soundfile(cfg):
             # canonical name of a real dtype spelling ('i2', '<i4', int, ...); abstract tokens ('DT') stay as they are
             import numpy as _np
             try:
-                return _np.dtype(d).name
+                return _DTName(_np.dtype(d))
             except TypeError:
                 return d
     ns = loader.load_unit('util', dict(np=NP), name='pydrobert.speech.util')
@@ -664,7 +675,7 @@ def run_soundfile(cfg):
     sys.modules['soundfile'] = sfm
     try:
         for sub, want in (('PCM_16', 'int16'), ('PCM_32', 'int32'), ('PCM_24', 'int32'), ('FLOAT', 'float32'), ('DOUBLE', 'float64')):
-            for dt in (None, 'DT', 'int16', 'int32', 'int64', 'float32', 'float64'):
+            for dt in (None, 'float16', 'uint8', 'int8', 'complex64', 'int16', 'int32', 'int64', 'float32', 'float64'):
                 ob += 1
                 state['subtype'] = sub
                 got = ns['_soundfile_read_signal']('x.flac', dt, None)
